@@ -5,6 +5,7 @@ mod observe;
 mod ops;
 mod par;
 mod props;
+mod rpcgen;
 
 use std::path::PathBuf;
 use std::sync::OnceLock;
@@ -181,7 +182,13 @@ fn main() {
     ev.extra.insert("regression_replays".into(), serde_json::json!(reg));
 
     let found = prop.run(&ctx, &mut ev);
+    let mut inconclusive: Vec<String> = vec![];
     for f in &found {
+        if f.sig.starts_with("harness/") {
+            // watchdog / harness problem: inconclusive, never a violation
+            inconclusive.push(format!("{} :: {}", f.sig, f.detail));
+            continue;
+        }
         let p = save_replay(&id, f);
         violations.push((f.sig.clone(), p, f.detail.clone()));
     }
@@ -216,6 +223,12 @@ fn main() {
             println!("VIOLATION property={} replay={}", id, p.display());
         }
         std::process::exit(1);
+    }
+    if !inconclusive.is_empty() {
+        for l in &inconclusive {
+            println!("INCONCLUSIVE: {}", l);
+        }
+        std::process::exit(2);
     }
     if ev.nontrivial.len() < prop.nontrivial_floor(&ctx) {
         println!("INCONCLUSIVE: only {} distinct non-trivial cases (generator health)", ev.nontrivial.len());
